@@ -388,6 +388,24 @@ def recv_requests(r, tier):
                  ("QReadCoils", 2001), ("QWriteRegisters", 2), ("QWriteCoils", 1)):
         out.append(((k, n), "exception", 60000, 1))
     out += [(("QWriteCoil",), "exception", 60000, 0), (("QWriteRegister",), "exception", 60000, 1)]
+    # a reply whose CRC-16 (not its body) contains a byte equal to one of the binary framer's delimiters: the sender
+    # must not lengthen the frame for it (independent bitwise CRC; unit 5, FC 6 echo at address 0)
+    def _crc(bs):
+        c = 0xFFFF
+        for b in bs:
+            c ^= b
+            for _ in range(8):
+                c = (c >> 1) ^ 0xA001 if c & 1 else c >> 1
+        return c
+    found = 0
+    for v in range(1, 4096):
+        body = bytes([5, 6, 0, 0, v >> 8, v & 255])
+        c = _crc(body)
+        if ({c & 255, c >> 8} & {0x7B, 0x7D}) and not ({0x7B, 0x7D} & set(body)):
+            out.append((("QWriteRegister",), "brace-crc", 0, v))
+            found += 1
+            if found == 4:
+                break
     # data bytes equal to the binary framer's delimiters
     out += [(("QWriteRegister",), "brace-data", 0, 0x7B7D), (("QDiagEcho", 1, False), "brace-data", 0, 0x007D),
             (("QWriteRegister",), "brace-data", 1, 0x017B)]
@@ -539,7 +557,10 @@ def classify(suite, desc):
     if suite in ("recv", "tcp"):
         if desc.get("framing") == "FTls" and desc.get("exception"):
             return F_TLSEXC
-        if desc.get("framing") == "FBinary" and desc.get("esc", 0) > 0:
+        # the open finding: '{' / '}' bytes of the reply BODY are doubled by the sender (overhead 5 + one byte each);
+        # a frame that is longer for any other reason (e.g. doubled CRC bytes) is a different violation
+        if desc.get("framing") == "FBinary" and desc.get("esc", 0) > 0 and \
+                desc.get("frame") == 5 + desc.get("pdu", 0) + desc.get("esc", 0):
             return F_BINESC
     return None
 
